@@ -100,7 +100,7 @@ func C19(tier rt.Tier) int {
 					}
 					// export / import
 					var mt2 util.MerkleTree
-					tree := append([]string(nil), mt.GetTree()...)
+					tree := mt.GetTree() // the export itself, not a copy: it must stay what it is whatever the source does next
 					if err := mt2.SetTree(n, tree); err != nil {
 						report(n, "SetTree of the exported tree failed: "+err.Error())
 						return
@@ -130,6 +130,30 @@ func C19(tier rt.Tier) int {
 						report(n, "SetTree on a used tree object failed: "+err.Error())
 						return
 					}
+					// the source object goes on to compute other trees (same size, smaller, larger); exported and
+					// loaded trees must not change. From here on `mt` is a fresh reference tree again.
+					exported := append([]string(nil), tree...)
+					for _, m := range []int{n, n - 1, n/2 + 1, n + 1} {
+						if m >= 1 && m <= len(leaves) {
+							again := make([]util.Hashable, m)
+							for i := range again {
+								again[i] = leaf(leaves[(i+13)%len(leaves)])
+							}
+							mt.ComputeTree(again)
+						}
+					}
+					for i := range exported {
+						if tree[i] != exported[i] {
+							report(n, fmt.Sprintf("the exported tree changed at position %d after the source object computed another tree", i))
+							return
+						}
+					}
+					if mt2.GetRoot() != root || used.GetRoot() != root {
+						report(n, "a loaded tree changed its root after the object it was exported from computed another tree")
+						return
+					}
+					mt = util.MerkleTree{}
+					mt.ComputeTree(hs)
 					le, lp, ln := 0, 0, 0
 					for i := 0; i < n; i++ {
 						p := mt.GetPathByIndex(i)
